@@ -114,6 +114,7 @@ func buildPlanned(dir string, oldTree, newTree map[string]string, pl histPlan) e
 			return err
 		}
 	}
+	proj.Git(dir, 0, "tag", "init") // a second name of the old revision, spelled like the INIT keyword in lower case
 	if _, err := proj.Git(dir, 0, "tag", "vold"); err != nil {
 		return err
 	}
@@ -337,6 +338,7 @@ func e2eHistoryPairs(c *e2eCtx) error {
 				if _, err := proj.InitRepo(dir, oldTree, 1700000000); err != nil {
 					return err
 				}
+				proj.Git(dir, 0, "tag", "init")
 				if _, err := proj.Git(dir, 0, "tag", "vold"); err != nil {
 					return err
 				}
@@ -397,6 +399,9 @@ func e2eHistoryPairs(c *e2eCtx) error {
 		gran := []string{"line", "patch", "scope", "func"}[i%4]
 		for mi, mode := range []string{"2", "3", "INIT"} {
 			cfg := proj.DefaultConfig("vold")
+			if i%4 == 1 { // the tag `init`: a revision like any other, not the new-repository keyword INIT
+				cfg.Old = "init"
+			}
 			cfg.Granularity = gran
 			cfg.Precision = 2
 			switch mode {
